@@ -384,30 +384,31 @@ PROPS = {
 
 # sentences added to the level texts as the drivers grew (rounds 4 and 5 of the seeded changes, DESIGN 10.5)
 LEVEL_TEXT_ADDENDA = {
+    "C04": "; by-path pairs whose index is an hour older / younger than the .shp",
     "C06": "; the complete Reader's read() against read_as::<S, Record>(), also with an unparsable extra row; also on files whose header length is stale (0 / 50 words) while the index lists the records",
     "C11": "; workloads on destinations an earlier writer had filled with records of the same sizes (cuts at operation boundaries, read without the index); every crash state is also read by path, with the same outcome; a crash right after a by-path open over an older valid shapefile",
-    "C13": "; every failing read is repeated under six other io::ErrorKind values; files holding null-shape records",
-    "C20": "; GeometryCollections of every make-up (empty, polygons only, mixed, nested) must be refused",
+    "C13": "; truncated files are also opened by path; every failing read is repeated under six other io::ErrorKind values; files holding null-shape records",
+    "C20": "; polygons whose exterior is repeated among their holes; GeometryCollections of every make-up (empty, polygons only, mixed, nested) must be refused",
     "C12": "; every failing write also as a full destination (Ok(0)); exports of 1 030 and 4 100 records on destinations whose every flush fails (validated at the level of counts); UNBOUNDED: TLAPS proves (spec/proofs/WriterDirty) that a finalize failing anywhere leaves the writer dirty, so the retry rewrites both headers",
     "C01": "; iteration on readers used before (after a refused random access, after a walk past the end); RAW BITS: shapes over arbitrary 64-bit patterns (-0.0, subnormals, NaN payloads, neighbours of NO_DATA) are compared byte by "
            "byte under the rules of spec/F64Bits.tla, whose operators are themselves validated against the processor on recorded "
            "comparisons and model-checked (MC_F64); read-back also through the Iterator adaptors nth/count/last; a size-threshold sweep (serialised sizes on and next to powers of two); files on disk under lower-case, upper-case and dotted names",
-    "C02": "; UNBOUNDED: TLAPS proves (spec/proofs/WriterNumbers, 49 obligations) that records are numbered 1, 2, 3, ... whatever refused "
+    "C02": "; parts of very different lengths in every order; UNBOUNDED: TLAPS proves (spec/proofs/WriterNumbers, 49 obligations) that records are numbered 1, 2, 3, ... whatever refused "
            "or cleanly failed writes lie between them; destinations that accept 1..7 bytes per call; destinations handed over with their cursor away from 0; record numbers and lengths after writes that failed cleanly",
     "C03": "; records of more than 2^20 points and of more than 2^20 parts (fields, counts and sampled vertices validated); every generated file is also read by path and through read_shapes; stored boxes that are all-zero or partly zero",
     "C05": "; per-shape and header boxes of the raw-bit cases by the numeric order of F64Bits; fault runs: a write that failed before emitting a byte must not count for the header box; UNBOUNDED: TLAPS proves "
            "(spec/proofs/WriterBox, 135 obligations) that for any number of shapes the incrementally grown range is exactly the "
            "least low end / greatest high end of the shapes written and is unset exactly when none was",
     "C07": "; runs of 5 000 and 40 000 null records; every input is exercised on a thread with a 512 KiB stack; well-formed files with degenerate geometry (identical / zero / collinear / NaN / infinite vertices) from the harness's own encoder; the same inputs as files on disk through ShapeReader::from_path and read_shapes",
-    "C17": "; by-path opens and reads are measured as well",
+    "C17": "; by-path opens and reads are measured as well; the complete Reader with a table that declares 2 000 000 rows and holds two",
     "C08": "; pairs read as a caller-defined row type that refuses one row (the iteration stays aligned); 1 100 pairs in one file (beyond any pre-allocation cap), in memory and by path; file names with upper-case extension and dotted stems",
     "C09": "; histories may end in the consuming bulk write of an empty container; Z profiles (all Z infinite) under concretisations whose extreme Z/M ids are the infinities; UNBOUNDED: TLAPS proves (spec/proofs/WriterDirty, 29 obligations) the dirty-flag protocol for any history: a clean "
            "writer's headers are current, so the silent finalize / drop is safe, and io = dirty; histories may end with the writer going out of scope during the unwinding of a caller's panic; histories that reach 255/256/257/512 uncommitted records",
     "C10": "; a .shp approaching 2 GiB (into a counting sink): a shape of another type is still refused for its type; refused CONSUMING bulk writes (write_shapes of another type) followed by the drop inside the call; refused writes after 255/256/257/512 uncommitted records",
-    "C14": "; every layout also through sources that return a few bytes per read call; records at word offsets around 2^30 and up to 2^31 - 4000 in a sparse 4 GiB source; every layout also as a .shp/.shx pair on disk (from_path iteration and random access, read_shapes, read_shapes_as); an index of 1 500 entries",
+    "C14": "; every layout also with an index that lists one record twice; every layout also through sources that return a few bytes per read call; records at word offsets around 2^30 and up to 2^31 - 4000 in a sparse 4 GiB source; every layout also as a .shp/.shx pair on disk (from_path iteration and random access, read_shapes, read_shapes_as); an index of 1 500 entries",
     "C16": "; ends that differ only in the sign of a zero (+0.0 / -0.0) are closed; a constructor that does not return is reported as a hang; one trace file concretises X/Y as neighbouring doubles (ends one or two ulps apart are open)",
-    "C18": "; in fault runs every write_shape that returned Ok must have emitted exactly one record frame announcing that shape's size",
-    "C19": "; routes: .shp header, .shx header, generic record, generic two-word record, typed record, typed two-word record",
+    "C18": "; sizes of shapes that come out of the reader (open rings and ring patches stay open); in fault runs every write_shape that returned Ok must have emitted exactly one record frame announcing that shape's size",
+    "C19": "; routes: .shp header, .shx header, generic record (record numbers 1, 0 and -1), generic two-word record, typed record, typed two-word record",
 }
 for _k, _v in LEVEL_TEXT_ADDENDA.items():
     PROPS[_k]["level_text"] = PROPS[_k]["level_text"] + _v
